@@ -254,6 +254,18 @@ func ruleSendPResp(c *RC) *RuleResult {
 		r.unresolved("call site of Config.NewPrepareResponse")
 	}
 	c.guardRule(r, sites, c.apiList, func(s *Site, sn *Snap) *Formula { return fNot(nn(slot("PreparationPayloads", tMyIndex))) }, nil)
+	// only a backup answers: the primary's own slot IS the proposal slot, a response built there replaces the proposal.
+	// (The guard above cannot see this case: assumption A7 — a received payload does not carry the node's own index —
+	// is false exactly for a primary that lost its state and is handed its own request by a recovery message.)
+	rb := &RuleResult{}
+	c.guardRule(rb, sites, c.apiList, func(s *Site, sn *Snap) *Formula { return fNot(fIsPrimary()) }, nil)
+	r.Sites += rb.Sites
+	for _, f := range rb.Findings {
+		r.fail(strings.Replace(f.Construct, "cb:NewPrepareResponse", "response-by-primary", 1), f.Where, "a PrepareResponse can be built by the view's primary: it is stored in the primary's own slot, which is the proposal slot, so the proposal is replaced by a response to it (a primary that restarted and got its own request back from a recovery message never commits): "+f.Detail)
+	}
+	for i := 0; i < rb.Discharged; i++ {
+		r.ok("only a backup answers")
+	}
 	// the typed send carries the payload just stored in the own slot
 	for _, s := range c.sendSitesOf("PrepareResponseType") {
 		r.Sites++
